@@ -12,7 +12,9 @@ pub mod c14;
 pub mod c15;
 pub mod c16;
 pub mod c17;
+pub mod c18;
 pub mod c19;
+pub mod c20;
 pub mod common;
 
 use crate::report::{Evidence, Stats, report_violations, stats_to_json};
@@ -82,7 +84,9 @@ pub fn dispatch(id: &str) -> Option<(fn(Tier) -> i32, fn(&Value) -> String)> {
         "C15" => Some((c15::run, c15::replay)),
         "C16" => Some((c16::run, common::replay_lockstep)),
         "C17" => Some((c17::run, c17::replay)),
+        "C18" => Some((c18::run, c18::replay)),
         "C19" => Some((c19::run, c19::replay)),
+        "C20" => Some((c20::run, c20::replay)),
         _ => None,
     }
 }
